@@ -48,16 +48,16 @@ META = {
 def specs():
     S = []
     S.append({"name": "tree_mix2", "fluid": "water", "nj": 4, "elems": [
-        E("ext_grid", j=0, t_k=360.0), E("pipe", f=0, to=1, sections=2, u=6.0, text_k=280.0, index=0),
-        E("pipe", f=1, to=2, u=4.0, index=1), E("pipe", f=1, to=3, u=5.0, index=2), E("pipe", f=3, to=2, u=3.0, index=3),
+        E("ext_grid", j=0, t_k=360.0), E("pipe", f=0, to=1, sections=2, u=6.0, text_k=280.0, do_mm=125.0, index=0),
+        E("pipe", f=1, to=2, u=4.0, do_mm=118.0, index=1), E("pipe", f=1, to=3, u=5.0, index=2), E("pipe", f=3, to=2, u=3.0, do_mm=140.0, index=3),
         E("sink", j=2), E("sink", j=3)]})
     S.append({"name": "mix3", "fluid": "water", "nj": 5, "elems": [
         E("ext_grid", j=0, t_k=360.0), E("ext_grid", j=1, t_k=340.0, type="pt"), E("ext_grid", j=2, type="t", t_k=350.0),
-        E("pipe", f=0, to=3, u=6.0, index=0), E("pipe", f=1, to=3, u=4.0, index=1), E("pipe", f=3, to=2, u=5.0, index=2),
+        E("pipe", f=0, to=3, u=6.0, index=0), E("pipe", f=1, to=3, u=4.0, do_mm=118.0, index=1), E("pipe", f=3, to=2, u=5.0, index=2),
         E("pipe", f=2, to=4, u=5.0, sections=3, index=3), E("source", j=2), E("sink", j=4), E("sink", j=3)]})
     S.append(catalog.w_circ_loop())
     S.append({"name": "loop_hex", "fluid": "water", "nj": 4, "elems": [
-        E("circ_pump_mass", ret=3, flow=0, t_flow=355.0), E("pipe", f=0, to=1, u=5.0, sections=2), E("pipe", f=2, to=3, u=5.0),
+        E("circ_pump_mass", ret=3, flow=0, t_flow=355.0), E("pipe", f=0, to=1, u=5.0, sections=2, do_mm=130.0), E("pipe", f=2, to=3, u=5.0),
         E("heat_exchanger", f=1, to=2, qext_w=8000.0), E("valve", j=1, el=2, et="ju")]})
     return S
 
